@@ -637,7 +637,30 @@ func (r *Run) binop(op token.Token, t types.Type, x, y Value, p token.Pos) Value
 
 func (r *Run) strCmp(op token.Token, a, b Str) *Term {
 	if a.Atom != nil || b.Atom != nil {
-		panic(unsupported("ordering of atom strings"))
+		// opaque names: an uninterpreted strict order (irreflexive on identical terms); code that sorts atoms is
+		// explored under every outcome of the comparisons
+		_, ac := a.Concrete()
+		_, bc := b.Concrete()
+		if (a.Atom == nil && !ac) || (b.Atom == nil && !bc) {
+			panic(unsupported("ordering of atom strings"))
+		}
+		x, y := r.AsAtom(a).SMT(), r.AsAtom(b).SMT()
+		lt := func(p, q string) *Term {
+			if p == q {
+				return False
+			}
+			return r.UF("uf_atom_lt", BoolSort, []string{p, q})
+		}
+		switch op {
+		case token.LSS:
+			return lt(x, y)
+		case token.GTR:
+			return lt(y, x)
+		case token.LEQ:
+			return Not(lt(y, x))
+		default:
+			return Not(lt(x, y))
+		}
 	}
 	// lexicographic less: built from the end
 	n := len(a.B)
